@@ -137,8 +137,8 @@ def judgeShot (scn : String) : List (String × StepTruth) → List Obs → Strin
       else if o.net = 0 then "fail:net:step failed but net code 0"
       else judgeShot scn rest os
 
-/-- `n` identical shots -/
-def judgeShots (scn : String) (steps : List (String × StepTruth)) : Nat → List Obs → String
+/-- `n` identical shots, judged position by position -/
+def judgeShotsSeq (scn : String) (steps : List (String × StepTruth)) : Nat → List Obs → String
   | 0, [] => "ok"
   | 0, _ :: _ => "fail:count:samples after the last shot"
   | n + 1, obs =>
@@ -146,8 +146,35 @@ def judgeShots (scn : String) (steps : List (String × StepTruth)) : Nat → Lis
     if obs.length < ex.length then "fail:count:fewer samples than executed steps"
     else
       match judgeShot scn ex (obs.take ex.length) with
-      | "ok" => judgeShots scn steps n (obs.drop ex.length)
+      | "ok" => judgeShotsSeq scn steps n (obs.drop ex.length)
       | v => v
+
+/-- is `tags` the tag of a sample of step `name` (`scenario.step`, with or without the `|__EMPTY__` a failed step appends) -/
+def isStepTag (scn name tags : String) : Bool :=
+  tags == scn ++ "." ++ name || tags == scn ++ "." ++ name ++ "|" ++ emptyTag
+
+/-- "one sample per executed step", step by step: the first executed step whose number of samples (over all `n`
+shots) is not the number of times it was executed, as a verdict naming that step; `none` when every step has its number.
+(`ex` = all executed steps of one shot: a step name used twice in a scenario is executed twice per shot.) -/
+def stepCountMismatch (scn : String) (n : Nat) (obs : List Obs) (ex : List (String × StepTruth)) :
+    List (String × StepTruth) → Option String
+  | [] => none
+  | (name, _) :: rest =>
+    let got := (obs.filter fun o => isStepTag scn name o.tags).length
+    let want := n * (ex.filter fun s => s.1 == name).length
+    if got ≠ want then some s!"fail:count:step {scn}.{name} executed {want} time(s) but {got} sample(s) carry its tag"
+    else stepCountMismatch scn n obs ex rest
+
+/-- `n` identical shots: tags and codes position by position; when that fails and some step does not have its number of
+samples, the verdict is the COUNT failure naming that step (a doubled or lost sample shifts every later position, so the
+positional verdict alone would name a code or a tag). -/
+def judgeShots (scn : String) (steps : List (String × StepTruth)) (n : Nat) (obs : List Obs) : String :=
+  match judgeShotsSeq scn steps n obs with
+  | "ok" => "ok"
+  | v =>
+    match stepCountMismatch scn n obs (executed steps) (executed steps) with
+    | some c => c
+    | none => v
 
 /-! ### gRPC -/
 
@@ -161,7 +188,11 @@ def judgeGrpc : List (String × Option Nat) → List Obs → String
     else match code with
       | some c => if o.proto ≠ docTable c then s!"fail:proto:status {c} reported as {o.proto}, documented {docTable c}"
                   else judgeGrpc rest os
-      | none => judgeGrpc rest os
+      | none =>
+        -- the request was never sent (unknown method, payload that cannot be marshalled or does not fit): there is no
+        -- call status to map; whatever the code is, it must not be the code of an ANSWERED call with status OK
+        if o.proto = docTable 0 then s!"fail:proto:request that was never sent reported as {o.proto} (= status OK)"
+        else judgeGrpc rest os
 
 /-- all ids distinct -/
 def idsUnique (ids : List Nat) : Bool :=
